@@ -75,6 +75,12 @@ BuiltInAlias == \E s \in Sites :
   /\ \E q \in DOMAIN BuiltIn : q # use[s] /\ BuiltIn[q] = BuiltIn[use[s]] /\ q \notin DOMAIN decl
                                 /\ use' = [use EXCEPT ![s] = q]
   /\ Step("builtinAlias", 1) /\ UNCHANGED <<decl, orders, style>>
+\* bind a fresh name to the namespace of a built-in prefix (apiExt included) and write it instead of the built-in one
+FreshAliasOfBuiltIn == \E s \in Sites, q \in FreshNames :
+  /\ use[s] \in DOMAIN BuiltIn /\ use[s] \notin DOMAIN decl /\ q \notin DOMAIN decl
+  /\ decl' = [x \in DOMAIN decl \cup {q} |-> IF x = q THEN BuiltIn[use[s]] ELSE decl[x]]
+  /\ use' = [t \in Sites |-> IF use[t] = use[s] THEN q ELSE use[t]]
+  /\ Step("builtinAlias", 2) /\ UNCHANGED <<orders, style>>
 \* re-declare a built-in prefix with the IRI it already has
 Redeclare == \E p \in DOMAIN BuiltIn :
   /\ p \notin DOMAIN decl
@@ -88,7 +94,7 @@ BrokenRename == AllowBrokenRename /\ \E p \in DOMAIN decl :
 Next == /\ Len(walk) < MaxWalk
         /\ \/ \E o \in Orderable : Permute(o)
            \/ \E s \in Styles : Restyle(s)
-           \/ Rename \/ Alias \/ BuiltInAlias \/ Redeclare \/ BrokenRename
+           \/ Rename \/ Alias \/ BuiltInAlias \/ FreshAliasOfBuiltIn \/ Redeclare \/ BrokenRename
 Spec == Init /\ [][Next]_vars
 
 MeaningPreserved == Abs = AbsInit
